@@ -304,14 +304,12 @@ class NormalizeCat(Command):
         if len(raw_values) != len(set(raw_values)):
             raise DuplicateRawValues(lineno=self.argument_lines.get("RawValues"))
 
-        result = numpy.ma.array(
-            numpy.full(arr.shape, default_normal_value, dtype=float)
-        )
+        result = numpy.full(arr.shape, default_normal_value, dtype=float)
 
         for raw, normal in zip(raw_values, normal_values):
             result[arr.data == raw] = normal
 
-        return result
+        return numpy.ma.array(result, mask=numpy.ma.getmaskarray(arr).copy())
 
 
 class NormalizeCurve(Command):
